@@ -12,10 +12,10 @@ P = {
  "C01": ("exploration", "4 C01", "differential round-trip monitor (reference model + entry-point equivalence); Miri i686 stage in thorough",
          "Every generated (shape, value) is encoded through all encode entry points and decoded through all decode entry points of the real crate; a monitor compares decoded value (floats bitwise), consumed length and remainder pointer. Whole domains for bool/u8/i8/u16/i16/char (and u32/i32/f32 in the thorough tier), every power-of-two boundary of the wide integers, random shape trees over all 29 serde kinds and ~75 concrete Rust types; text that reaches the encoder through collect_str (write_str and write_char pieces, fmt::Arguments) and never-materialised sequences of 2^32+-k zero-sized elements round-trip as well. Exploration, not proof: values of 64/128-bit types and deep shapes are sampled. A lean workload is also interpreted by Miri for a 32-bit target (i686; stage miri32), where length prefixes are 32-bit varints. (thorough)",
          "Trusts the harness's run-time serde bridge (cross-checked by the Recorder) and the reference encoder used to build corpus values."),
- "C02": ("exploration", "4 C02", "differential monitor against an independent reference encoder written from wire-format.md; Miri i686 stage in thorough",
+ "C02": ("exploration", "4 C02", "differential monitor against an independent reference encoder written from wire-format.md; Miri big-endian stage (quick), Miri i686 stage (thorough)",
          "Byte-for-byte comparison of the real encoder's output with a reference encoder written from the specification and validated against every table of the specification at start-up; plus direct canonical-varint assertion, unknown-length refusal, collect_str (write_str and write_char pieces), skip_field, count prefixes of every magnitude, usize/isize and rename-metamorphic monitors. Same domains as C01. A lean workload is also interpreted by Miri for a 32-bit target (i686; stage miri32), where length prefixes are 32-bit varints. (thorough)",
          "Trusts the reference encoder (validated against 33 table rows of spec/src/wire-format.md on every run)."),
- "C03": ("exploration", "4 C03", "differential monitor against an independent reference decoder; exhaustive short byte strings; Miri i686 stage",
+ "C03": ("exploration", "4 C03", "differential monitor against an independent reference decoder; exhaustive short byte strings; Miri i686 stage (quick), big-endian stage (thorough)",
          "Accept/reject, value, consumed length, remainder identity and error kind of the real decoder are compared with a reference decoder written from the specification on every byte string of length <= 3 (quick) / <= 4 (thorough) for the 16-bit varint decoders, all short strings for bool/u8/i8/options, boundary-structured strings for the wider varints, and valid/prefix/corrupted/re-padded/random inputs for random and concrete shapes. A lean workload is also interpreted by Miri for a 32-bit target (i686; stage miri32), where length prefixes are 32-bit varints. (quick and thorough: length prefixes 2^32-1, 2^32, over-long paddings against the reference decoder parametrised by the pointer width)",
          "Trusts the reference decoder (validated against the canonicalization and max-length tables of the specification)."),
  "C04": ("exploration", "4 C04", "guard pages + counting allocator + panic monitor + Miri for x86-64 and i686 (+ASan and valgrind memcheck in thorough)",
@@ -36,7 +36,7 @@ P = {
  "C09": ("exploration", "4 C09", "online history monitor with state hook over overflow/garbage streams",
          "Streams with over-long segments and garbage across capacities N in 1..16 incl. N equal to, one less and one more than a frame; monitors: no panic, hook length <= N and empty after every zero, OverFull before the sentinel of an over-long segment, resync, bounded progress of the feed loop in logical steps.",
          "Termination is decided on logical step counts, never wall-clock."),
- "C10": ("fault_enumeration", "4 C10", "corruption fault enumeration against a bit-level reference CRC",
+ "C10": ("fault_enumeration", "4 C10", "corruption fault enumeration against a bit-level reference CRC; Miri big-endian stage in thorough",
          "Frames for five widths and ten catalogue algorithms are compared with a bit-at-a-time Rocksoft-model CRC (validated against each algorithm's published check value); every single-bit flip, every burst <= width at every offset (exhaustive for widths <= 16, sampled above), truncations and random damage are injected and the soundness invariant is checked on every accepted input; the checksum flavour is also stacked on the std and embedded-io reader flavours with exactly sized scratch buffers, and the crate-level crc32 wrappers are exercised.",
          "Trusts the reference CRC (validated against published check values on every run)."),
  "C11": ("fault_enumeration", "4 C11", "I/O fault and schedule enumeration with guard pages, Miri (+ASan, valgrind memcheck, Miri i686, embedded-io 0.4 build in thorough)",
@@ -45,7 +45,7 @@ P = {
  "C12": ("exploration", "4 C12", "bound monitor over built-in and in-tree-derive MaxSize impls",
          "serialized size of maximising and random values of every MaxSize impl is compared with POSTCARD_MAX_SIZE; tightness asserted for the categories the statement names; heapless vectors of zero-sized elements at capacities up to usize::MAX; derived types whose fields carry serde attributes.",
          "Uses the in-tree postcard-derive (path dependency), not the registry one postcard re-exports."),
- "C13": ("exploration", "4 C13", "differential monitor against to_le_bytes/to_be_bytes; exhaustive 16-bit",
+ "C13": ("exploration", "4 C13", "differential monitor against to_le_bytes/to_be_bytes; exhaustive 16-bit; Miri big-endian stage",
          "All 65536 values of u16/i16 in both byte orders, every single-byte-nonzero pattern, extremes and random values of the wider types (all 2^32 of u32/i32 in thorough), standalone and between varint fields.",
          "-"),
  "C14": ("exploration", "4 C14", "conformance monitor: recorded serializer call tree vs Schema, plus schema-driven wire walker; two feature configurations (use-std, alloc-only)",
@@ -54,10 +54,10 @@ P = {
  "C15": ("exploration", "4 C15", "differential monitor borrowed vs owned schema over random trees",
          "Random schema trees over all 26 node kinds and 4 data kinds are built in both forms from one harness description; conversion equality, byte equality and decode-back equality are monitored.",
          "Borrowed trees are leaked (bounded per run)."),
- "C16": ("exploration", "4 C16", "three-way differential: const hasher (hook) vs owned hasher vs reference FNV-1a stream",
+ "C16": ("exploration", "4 C16", "three-way differential: const hasher (hook) vs owned hasher vs reference FNV-1a stream; Miri big-endian stage in thorough",
          "Keys of random trees x paths from both implementations and an independent tag-stream + FNV-1a implementation are compared; every single-node mutation whose documented stream differs must change the key.",
          "Needs the hook to run the private const hasher on run-time trees; Key::for_path::<T> is additionally exercised on corpus types."),
- "C17": ("exploration", "4 C17", "differential: dynamic codec vs static encoder vs serde_json",
+ "C17": ("exploration", "4 C17", "differential: dynamic codec vs static encoder vs serde_json; Miri i686 and big-endian stages in thorough",
          "For random shapes and corpus types within the statement's restrictions, to_stdvec_dyn must equal the static bytes and from_slice_dyn must equal serde_json::to_value; names that differ only in case or in a raw-identifier prefix, nesting to depth 300. A lean workload is also interpreted by Miri for a 32-bit target (i686; stage miri32), where length prefixes are 32-bit varints. (thorough: pointer-sized integers inside the target range)",
          "serde_json's own Serializer is trusted as the JSON reference."),
  "C18": ("exploration", "4 C18", "totality monitor (catch_unwind, breadcrumbs, counting allocator) over random schemas x bytes x JSON",
@@ -114,7 +114,7 @@ def main():
         ],
         "checks": checks,
         "not_applicable": [{"property_id": pid, "reason": REASON_NOT_BUILT} for pid in sorted(P) if pid not in BUILT],
-        "notes": "Technique family: runtime monitoring and sanitizers. Verdicts are three-valued (exit 0 held / 1 violation / 2 inconclusive). VERIF_SEED seeds all random choices; enumerated sub-spaces do not depend on it. VERIF_STAGES=native,plain,miri,miri32,asan,memcheck,eio04,alloc restricts stages (debugging aid). Confirmed property-breaking changes used to validate the checks are in /verif/seeded/ (140 changes from three waves of independent sub-agents, all detected; DESIGN.md section 15). tools_coverage.sh reports which source lines of /repo the workloads execute (coverage/).",
+        "notes": "Technique family: runtime monitoring and sanitizers. Verdicts are three-valued (exit 0 held / 1 violation / 2 inconclusive). VERIF_SEED seeds all random choices; enumerated sub-spaces do not depend on it. VERIF_STAGES=native,plain,miri,miri32,miribe,asan,memcheck,eio04,alloc restricts stages (debugging aid). Confirmed property-breaking changes used to validate the checks are in /verif/seeded/ (140 changes from three waves of independent sub-agents plus 5 hand-written byte-order changes, all detected; DESIGN.md section 15). tools_coverage.sh reports which source lines of /repo the workloads execute (coverage/).",
     }
     with open("/verif/MANIFEST.json", "w") as f:
         json.dump(m, f, indent=1)
